@@ -26,7 +26,7 @@ func (p *c02) Rule() string {
 }
 
 func (p *c02) Directed() []string {
-	return []string{"parent-refs-after-wait", "subflow-waiting-parent-paused", "results-overwritten", "webhook-result-then-wait", "batch-open-ticket-after-wait", "batch-start-session-after-wait", "missing-child-flow-on-reread", "msg-trigger-input-after-wait"}
+	return []string{"parent-refs-after-wait", "subflow-waiting-parent-paused", "results-overwritten", "webhook-result-then-wait", "batch-open-ticket-after-wait", "batch-start-session-after-wait", "missing-child-flow-on-reread", "msg-trigger-input-after-wait", "environment-refreshed-on-resume", "contact-refreshed-on-resume"}
 }
 
 func (p *c02) Floors(tier string) []string {
@@ -75,6 +75,34 @@ func (p *c02) directed(name string) *gen.Scenario {
 			d.Flow("A", "messaging", d.Node("a1", []any{d.Enter("e", "Gone", false)}, nil, d.Exit("a1x", "a2")), d.WaitNode("a2", "", nil)),
 			d.Flow("B", "messaging", d.WaitNode("b1", "", nil))),
 			Trigger: d.Manual("A", nil), Resumes: []gen.M{d.MsgResume(0, "x")}}
+	case "environment-refreshed-on-resume", "contact-refreshed-on-resume":
+		txt := "@(format_datetime(contact.created_on)) @(format_number(1234.5)) @fields.joined @(format_date(\"2018-03-04T00:00:00Z\")) @contact.name @contact.language @fields.age @contact.groups @urns"
+		var rs []gen.M
+		envs := []gen.M{
+			{"date_format": "DD-MM-YYYY", "time_format": "h:mm aa", "timezone": "America/New_York", "allowed_languages": []string{"spa", "eng"}, "number_format": gen.M{"decimal_symbol": ",", "digit_grouping_symbol": "."}},
+			{"date_format": "MM-DD-YYYY", "time_format": "tt:mm:ss", "timezone": "Asia/Kolkata", "allowed_languages": []string{"fra"}},
+			{"date_format": "YYYY-MM-DD", "time_format": "tt:mm", "timezone": "UTC"},
+		}
+		for i := 0; i < 4; i++ {
+			m := d.MsgResume(i, fmt.Sprint("m", i))
+			if name == "environment-refreshed-on-resume" {
+				if i != 2 {
+					m["environment"] = envs[i%3]
+				}
+			} else if i != 1 {
+				nc := d.Contact()
+				nc["name"] = fmt.Sprint("Refreshed ", i)
+				nc["language"] = []string{"spa", "fra", "eng", "kin"}[i]
+				nc["fields"] = gen.M{"age": gen.M{"text": fmt.Sprint(10 + i*10), "number": 10 + i*10}, "joined": gen.M{"text": "2018-01-02T03:04:05Z", "datetime": "2018-01-02T03:04:05Z"}}
+				nc["urns"] = []string{fmt.Sprintf("tel:+1206555%04d", i)}
+				m["contact"] = nc
+			}
+			rs = append(rs, m)
+		}
+		ct := d.Contact()
+		ct["fields"].(gen.M)["joined"] = gen.M{"text": "2017-12-31T23:30:00Z", "datetime": "2017-12-31T23:30:00Z"}
+		return &gen.Scenario{Assets: d.BaseAssets(d.Flow("A", "messaging", d.Node("a0", []any{d.SendMsg("m0", txt)}, nil, d.Exit("a0x", "a1")), d.WaitNode("a1", "a2", nil), d.Node("a2", []any{d.SendMsg("m", txt), act("r", "set_run_result", gen.M{"name": "Snap", "value": txt})}, nil, d.Exit("a2x", "a1")))),
+			Trigger: d.Manual("A", ct), Resumes: rs}
 	case "msg-trigger-input-after-wait":
 		return &gen.Scenario{Assets: d.BaseAssets(d.Flow("A", "messaging", d.Node("a0", []any{d.SendMsg("m0", "@input @input.urn @input.channel")}, nil, d.Exit("a0x", "a1")), d.WaitNode("a1", "a2", sp("a2")), d.Node("a2", []any{d.SendMsg("m", "@input @input.text @input.created_on @(json(input)) @trigger.keyword @resume.type")}, nil, d.Exit("a2x", "a1")))),
 			Trigger: d.MsgTrigger("A", nil, "start now"), Resumes: []gen.M{d.MsgResume(0, "x"), d.Timeout(1), d.MsgResume(2, "z")}}
@@ -150,6 +178,9 @@ func (p *c02) Run(c fw.Case) fw.Result {
 		scen = p.directed(c.Directed)
 	} else {
 		o := gen.ScenOpts{NoWebhookCtx: true, Batch: true, MaxNodes: r.Range(2, 7), MaxResumes: 6, LoopHeavy: r.Chance(0.2), ContactChanges: r.Chance(0.4), Localized: r.Chance(0.3), QueryGroups: r.Chance(0.3)}
+		if r.Chance(0.4) {
+			o.RefreshP, o.EnvSensitive = 0.5, true
+		}
 		scen = gen.Scen(r, o)
 	}
 	res.Fingerprint = scen.Fingerprint()
